@@ -99,6 +99,18 @@ def nest : Prog → Nat
   | .call p => nest p
   | .tryCatch b _ h => max (nest b + 1) (nest h)
 
+/-- **The nesting bound of the property** ("for all try/throw/catch program trees up to a size and nesting bound"):
+    2048 try blocks open at the same time in one thread — lexically or dynamically, e.g. a recursive function with a
+    try/catch per level — is what the library's jump-buffer stack (`jmp_buf* buffers[EXCEPTION_MAX_DEPTH]` in the
+    per-thread `struct Exception`) holds on the tree the property was written for. A FIXED number, not the generated
+    `CelloGen.Exn.maxDepth`: the theorems of CelloProofs/Props/C07.lean whose hypothesis is `s.depth + nest p ≤ nestBound`
+    (`C07_within_nesting_bound…`) need `C07_depth_capacity : nestBound ≤ CelloGen.Exn.maxDepth`, which stops checking when
+    the source's capacity shrinks; harness/h_exn.c judges every program whose nesting stays within this bound by the
+    reference interpreter WITHOUT capacity, and lean/Driver/Exn.lean compares machine and reference on exactly those.
+    Nesting beyond it is outside the property's quantifier (what the code does there — `exception_try` prints
+    "Exception Buffer Overflow" and aborts — is modelled: `runWith`'s first test, `C07_overflow_aborts`). -/
+def nestBound : Nat := 2048
+
 /-- **Object domain** of the property: every `throw` names a non-NULL object and has a well-formed message, and no
     filter lists NULL. (That thrown objects outlive the jump and that `eq` on them cannot raise is built into the
     representation: objects are plain addresses compared by identity.) -/
